@@ -93,6 +93,9 @@ var templates = []tmpl{
 	{name: "augment-of-a-choice-brings-a-choice", augment: true, clean: true, present: [][]string{{"c", "how", "brought", "brought", "b1", "b1"}, {"c", "how", "transport", "transport", "udp", "udp", "port"}, {"c", "how", "a", "a"}}, files: []string{
 		`module m { ` + hdr("m") + ` container c { choice how { leaf a { type string; } } %PAD } }`,
 		`module b { ` + hdr("b") + ` import m { prefix m; } grouping gch { choice transport { leaf tcp { type string; } container udp { leaf port { type string; } } } } augment /m:c/m:how { choice brought { leaf b1 { type string; } case b2 { leaf b2l { type string; } } } uses gch; } }`}},
+	{name: "augment-written-in-a-submodule-has-no-target", augment: true, files: []string{
+		`module m { ` + hdr("m") + ` include s; container c { leaf l { type string; } %PAD } }`,
+		`submodule s { belongs-to m { prefix m; } container sc { leaf sl { type string; } } augment "%SUBBAD" { leaf y { type string; } } }`}},
 	{name: "augment-path-leaves-out-an-explicit-case", augment: true, files: []string{
 		`module m { ` + hdr("m") + ` container top { choice ch { case c1 { container cont { leaf in { type string; } } } case c2 { leaf other { type string; } } } %PAD } rpc r { input { choice how { case by-name { container sel { leaf n { type string; } } } } } } }`,
 		`module b { ` + hdr("b") + ` import m { prefix m; } augment %NOCASE { leaf bad { type string; } } }`}},
@@ -173,6 +176,7 @@ func Run(j *job.Job, s *job.Sink) {
 			txt = strings.ReplaceAll(txt, "%N1", names3[0])
 			txt = strings.ReplaceAll(txt, "%N2", names3[1])
 			txt = strings.ReplaceAll(txt, "%N3", names3[2])
+			txt = strings.ReplaceAll(txt, "%SUBBAD", []string{"/m:c/m:missing", "/m:c/m:l", "/m:nowhere", "/c/missing", "/sc/sl", "/m:sc/m:nothere"}[r.Intn(6)])
 			txt = strings.ReplaceAll(txt, "%GONE", []string{"/m:top/m:box", "/m:top"}[r.Intn(2)])
 			txt = strings.ReplaceAll(txt, "%LEAFY", []string{"lf", "ll", "ax", "ad"}[r.Intn(4)])
 			txt = strings.ReplaceAll(txt, "%EMPTYBODY", []string{"uses nothing;", "description \"nothing\";", "when \"../m:lf\";", "uses nothing; reference \"r\";", ""}[r.Intn(5)])
